@@ -25,13 +25,13 @@ FMT_RULE = ("cases are generated from one splitmix64 state (VERIF_SEED, op, inde
 HOOK_COMMITS = ["94169f7", "6cd8fd8"]
 
 ENGINES = [
-    {"name": "extractor", "path": "extract/", "serves_properties": ["C02", "C03", "C04", "C05", "C06", "C08", "C10", "C11", "C12", "C13", "C17"],
+    {"name": "extractor", "path": "extract/", "serves_properties": ["C02", "C03", "C04", "C05", "C06", "C08", "C09", "C10", "C11", "C12", "C13", "C17"],
      "kind_free_text": "Go (go/ast): regenerates lean/Carapace/Gen (replacer tables, character sets, format strings, shell lists) from /repo on every run"},
-    {"name": "lean", "path": "lean/", "serves_properties": ["C02", "C03", "C04", "C05", "C06", "C08", "C10", "C11", "C12", "C13", "C17"],
+    {"name": "lean", "path": "lean/", "serves_properties": ["C02", "C03", "C04", "C05", "C06", "C08", "C09", "C10", "C11", "C12", "C13", "C17"],
      "kind_free_text": "Lean 4 library: Model (transcription of the code), Spec (readers, decoders, oracles), Props (theorems); compiled driver lean/Driver"},
-    {"name": "harness", "path": "harness/", "serves_properties": ["C02", "C03", "C04", "C05", "C06", "C08", "C10", "C11", "C12", "C13", "C17"],
+    {"name": "harness", "path": "harness/", "serves_properties": ["C02", "C03", "C04", "C05", "C06", "C08", "C09", "C10", "C11", "C12", "C13", "C17"],
      "kind_free_text": "Go module linking the real packages from /repo with -tags verif; generators and in-process execution, one JSON line per case"},
-    {"name": "runner", "path": "check", "serves_properties": ["C02", "C03", "C04", "C05", "C06", "C08", "C10", "C11", "C12", "C13", "C17"],
+    {"name": "runner", "path": "check", "serves_properties": ["C02", "C03", "C04", "C05", "C06", "C08", "C09", "C10", "C11", "C12", "C13", "C17"],
      "kind_free_text": "python3 (stdlib): orchestration, known-finding classification by input neutralisation, shrinking, evidence"},
 ]
 
@@ -118,6 +118,17 @@ PROPS.update({
             "level_text": ("`C17_unquoted`, `C17_dquote`, `C17_squote`: for every value of word characters and blanks, the text `split` appends in each of the three quoting styles reads back (POSIX-style reader, transducer induction) as exactly the value; `C17_prefix_preserved` (every candidate is the typed text up to the start of the last word followed by the quoted value), `C17_space`; the rune-index-as-byte-offset defect is a decided counterexample and a listed finding. "
                            "Correspondence: the model of `split` (prefix, Context, quoting, blank) is compared exactly with the real Split/SplitP on generated lines; oracles on the real result: the wrapped action saw exactly the lexer's words, every candidate starts with the typed prefix byte for byte, re-reading every candidate with the real lexer gives the earlier words followed by the value, a blank follows iff no-space does not apply."),
             "level_note": ALG_NOTE + " carapace-shlex is used as is (dependency)."},
+})
+
+
+PROPS.update({
+    "C09": {"modules": ["Carapace.Props.C09"], "ops": [("invoke", {"quick": 8000, "thorough": 400000})], "race_ops": [("batchrace", {"quick": 1500, "thorough": 60000})],
+            "rule": ALG_RULE + "; race scenarios: Batches of 2-5 members that share one captured Action (plain, under NoSpace / Usage / MultiParts / Prefix / Style / nested Batch), members that call Setenv on a Context with spare capacity, edit args / value, each invoked three times on a -race build",
+            "assumptions": ALG_ASSUME + ["data-race freedom is a property of the Go runtime execution: it is searched with the race detector on generated Batch scenarios (members sharing captured Actions, Setenv, nested batches), never proved; members that register completions (Gen / FlagCompletion / ActionExecute) are exercised by the parse engine (C20), not here"],
+            "claimed": True, "engine": "alg",
+            "level_text": ("`C09_schedule_independent` / `C09_any_two_schedules`: for every complete schedule of the member goroutines (any permutation) the result slots hold exactly the members' sequential results (each member writes only its own slot; induction over the schedule); `C09_equals_sequential`, `C09_merge_values` (merged by inserted value, later replaces earlier), `C09_merge_usage` (last non-empty usage), `C09_merge_messages` (union), `C09_batch_small`. The model is bound to batch.go / invokedAction.go by exact comparison of invoked Batch results on random expressions. "
+                           "Partial by nature: the absence of data races is searched, not proved - Batch scenarios run on a -race build and any report of the race detector is a violation."),
+            "level_note": ALG_NOTE + " The Go scheduler and memory model are outside the model; race freedom is only searched."},
 })
 
 
